@@ -57,3 +57,19 @@ def to_ticks(x):
     if v != int(v):
         return "offgrid:%r" % (x,)
     return int(v)
+
+
+def to_hint(x):
+    """a Retry-After hint as handed to the strategy / the log: ticks, or "nan" / "inf" / "-inf" (passed through untouched)"""
+    if x is None:
+        return None
+    try:
+        if x != x:
+            return "nan"
+        if x == float("inf"):
+            return "inf"
+        if x == float("-inf"):
+            return "-inf"
+    except Exception:
+        return "nan"
+    return to_ticks(x)
